@@ -30,9 +30,9 @@ ASSUMPTIONS = [
     "the interleaving signature (order of first reader_overflow(s), wait_saw_exit, wait_saw_overflow, wait_timeout, reader_eof(s), join_recheck(s) in the runner's event log) is coverage only; the run is reported as broken (exit 3) when the over-cap runs never showed both 'exit seen before the overflow flag was raised' and 'overflow seen by the wait loop'",
 ]
 
-# (matrix stage is fixed: 135 policy cells + 48 directed schedules + 8 late-exit schedules + 6 failed-read schedules), random stage per tier
+# (matrix stage is fixed: 135 policy cells + 48 directed schedules + 8 late-exit schedules + 6 failed-read schedules + 8 more: unread 256 KiB stdin with hang / late exit / overflow, streams beginning with U+FEFF or U+2028), random stage per tier
 RANDOM = {"quick": 400, "thorough": 10000}
-MATRIX = 135 + 48 + 8 + 6
+MATRIX = 135 + 48 + 8 + 6 + 8
 
 
 def run(tier, seed):
